@@ -101,10 +101,10 @@ var basics = func() map[Kind]*Ty {
 	return m
 }()
 
-func sliceOf(e *Ty) *Ty      { return &Ty{K: KSlice, Elem: e} }
+func sliceOf(e *Ty) *Ty        { return &Ty{K: KSlice, Elem: e} }
 func arrayOf(n int, e *Ty) *Ty { return &Ty{K: KArray, Elem: e, N: n} }
-func mapOf(e *Ty) *Ty        { return &Ty{K: KMap, Elem: e} }
-func ptrTo(e *Ty) *Ty        { return &Ty{K: KPtr, Elem: e} }
+func mapOf(e *Ty) *Ty          { return &Ty{K: KMap, Elem: e} }
+func ptrTo(e *Ty) *Ty          { return &Ty{K: KPtr, Elem: e} }
 
 // GoType is the type as written in a program.
 func (t *Ty) GoType() string {
